@@ -221,6 +221,9 @@ func suiteC16(c *ctx) {
 			}
 			rec := h.shadow[u]
 			lastAdmin := rec != nil && rec.admin && admins == 1
+			if r.Intn(15) == 0 || (h.tmpBroken && r.Intn(3) == 0) {
+				h.toggleTmp() // the work area is a regular file for a while: writes fail, the store stays valid
+			}
 			switch x := r.Intn(10); {
 			case x < 3:
 				h.write("add", u, genPw(r), r.Intn(3) == 0)
@@ -249,7 +252,7 @@ func suiteC16(c *ctx) {
 			if len(id) > 2500 {
 				id = id[:2500]
 			}
-			c.emit("law.C16.history_keeps_store_valid "+id, tf(h.d.Check() == nil && !both && tmpEmpty(snap)))
+			c.emit("law.C16.history_keeps_store_valid "+id, tf(h.d.Check() == nil && !both && (h.tmpBroken || tmpEmpty(snap))))
 		}
 		h.readers()
 		os.RemoveAll(h.base)
